@@ -447,7 +447,7 @@ func runC10(w *World, r *Report) {
 			var es []Edge
 			for _, c := range callsTo(fn, cn("transaction", "Transaction", "IsEmpty")) {
 				recv, _ := callArgs(c)
-				if pathOf(recv) == recvPath {
+				if pathOf(recv) == bp(recvPath) {
 					es = append(es, passBool(c, 0, false)...)
 				}
 			}
@@ -477,7 +477,7 @@ func runC10(w *World, r *Report) {
 		}},
 		{"AddLeaf", cn("accountant", "*AccountingBook", "addLeafMemorized"), []guard{
 			{"leaf != nil", func(fn *ssa.Function) []Edge {
-				return edgesWhere(fn, func(f fact) bool { return f.kind == fNotNil && pathOf(f.x) == "leaf" })
+				return edgesWhere(fn, func(f fact) bool { return f.kind == fNotNil && pathOf(f.x) == bp("leaf") })
 			}},
 			{"issuer != sealing node of the vertex", func(fn *ssa.Function) []Edge {
 				return cmpEdges(fn, pathIs("leaf.Transaction.IssuerAddress"), pathIs("leaf.SignerPublicAddress"), false)
@@ -505,6 +505,18 @@ func runC10(w *World, r *Report) {
 		if f == nil {
 			continue
 		}
+		spec := map[string]string{"ab": "recv"}
+		switch row.fn {
+		case "CreateLeaf":
+			spec["trx"] = "param:2"
+		case "AddLeaf":
+			spec["leaf"] = "param:2"
+		case "addLeafMemorized":
+			spec["m"] = "param:2"
+		case "CreateGenesis":
+			spec["receiverPublicAddress"] = "param:4"
+		}
+		curBinder = bindNames(f.fn, spec)
 		effs := f.calls(row.effect)
 		if len(effs) == 0 {
 			r.bad("sealing-guards", row.fn+"/effect", w.Pos(f.fn.Pos()), "protected effect must exist", "no call of "+row.effect)
@@ -524,7 +536,7 @@ func runC10(w *World, r *Report) {
 			_, a := callArgs(c)
 			ok := false
 			if nm, isCall := strip(a[1]).(*ssa.Call); isCall && calleeName(nm) == cn("accountant", "", "newMemory") {
-				ok = pathOf(nm.Call.Args[0]) == "leaf"
+				ok = pathOf(nm.Call.Args[0]) == f.fn.Params[2].Name()
 			}
 			r.check(ok, "sealing-guards", "AddLeaf/admits-the-guarded-leaf", lineOf(w, c), "the vertex handed to admission is the one the guards looked at", "argument is "+pathOf(a[1]))
 		}
@@ -567,7 +579,7 @@ func runC10(w *World, r *Report) {
 				for i := range b.Succs {
 					for _, ft := range edgeFacts(Edge{b, i}) {
 						if ft.kind == fTrue {
-							if phi, ok := strip(ft.x).(*ssa.Phi); ok && phi.Comment == "genesisCandidateReceived" {
+							if phi, ok := strip(ft.x).(*ssa.Phi); ok && isBoolType(phi.Type()) {
 								flagTrue = append(flagTrue, Edge{b, i})
 							}
 						}
@@ -1097,4 +1109,9 @@ func blockCancelDesc(w *World, b *ssa.BasicBlock) string {
 		}
 	}
 	return b.Comment
+}
+
+func isBoolType(t types.Type) bool {
+	b, ok := t.Underlying().(*types.Basic)
+	return ok && b.Kind() == types.Bool
 }
